@@ -52,6 +52,10 @@ func (r *refSet) valid(l *letter) bool {
 		l.addrOf == l.index && l.signedBy == l.index
 }
 
+func (r *refSet) stepIndexAddressOK(l *letter) bool {
+	return l.height == theHeight && l.st == r.st && l.index >= 0 && l.index < r.f.n && l.addrOf == l.index
+}
+
 func (r *refSet) hasAny(i int) bool { return r.first[i] >= 0 }
 
 // exceeds reports 3*p > 2*total, exactly.
@@ -89,6 +93,10 @@ func (r *refSet) judgeVote(l *letter, added bool, ec string) (class string, bad 
 		switch {
 		case added:
 			return "invalid", "invalid-vote-accepted"
+		case ec == "none" && (l.Kind == kBadSig || l.Kind == kNoSig) && r.stepIndexAddressOK(l) && r.accepted[l.index][l.Block]:
+			// a mis-signed copy of a vote the set already holds may be answered
+			// as something already known
+			return "invalid-copy-of-known-vote", ""
 		case ec == "none":
 			return "invalid", "invalid-vote-not-reported"
 		case ec == "conflicting":
